@@ -5,10 +5,14 @@ import (
 	"math/rand"
 	"strconv"
 	"strings"
+	"sync"
+	"sync/atomic"
 	"time"
 
 	"verif/harness/model"
+	"verif/harness/resp"
 	"verif/harness/verdict"
+	"verif/harness/wire"
 )
 
 func init() { register("C14", "exploration", checkC14) }
@@ -173,7 +177,7 @@ func c14BlockedDuringFlush(r *verdict.Run) {
 
 func checkC14(r *verdict.Run) {
 	r.Rule = "scripts over 3-5 connections of one emulator, commands executed one at a time in a generated global order: SELECT with valid and invalid indexes, the same key names in several databases, FLUSHDB/FLUSHALL (with SYNC/ASYNC), DBSIZE/KEYS, CLIENT SETNAME/GETNAME, HELLO 2/3/other, MULTI/EXEC/WATCH on one connection while others work, connections opened before and after flushes; " +
-		"oracle: every reply = reference model with per-connection sessions; after every step every database in use is dumped through an observer connection and compared (so a flush must be what every client sees). Plus: a client blocked on a key during FLUSHDB/FLUSHALL must be served by a later push. distinct = (command, MULTI state, database, outcome class)"
+		"oracle: every reply = reference model with per-connection sessions; after every step every database in use is dumped through an observer connection and compared (so a flush must be what every client sees). Plus: a client blocked on a key during FLUSHDB/FLUSHALL must be served by a later push; 2-4 connections select a never used database at the same moment (15 databases per fresh emulator): they must share one namespace (mutual reads, DBSIZE, FLUSHALL). distinct = (command, MULTI state, database, outcome class)"
 	nscripts := tierPick(r, 300, 6000)
 	perChild := 20
 	nsh := (nscripts + perChild - 1) / perChild
@@ -216,4 +220,119 @@ func checkC14(r *verdict.Run) {
 		}
 	})
 	c14BlockedDuringFlush(r)
+	c14ConcurrentFirstUse(r, tierPick(r, 24, 240))
+}
+
+// c14ConcurrentFirstUse: databases come into being when they are first selected. When several connections select a
+// database nobody has used yet at the same moment, they must all end up in the same namespace: what one writes the
+// others (and later connections) read, DBSIZE agrees, and FLUSHALL by anyone empties it for all of them.
+func c14ConcurrentFirstUse(r *verdict.Run, nemu int) {
+	perChild := 6
+	nsh := (nemu + perChild - 1) / perChild
+	var firstUses, overlapping int64
+	parallel(nsh, 8, func(shard int) {
+		c, err := startChild(false)
+		if err != nil {
+			r.Inconclusive("cannot start child")
+			return
+		}
+		defer c.Stop()
+		for i := 0; i < perChild && shard*perChild+i < nemu; i++ {
+			e, err := startEmu(c, "")
+			if err != nil {
+				r.Inconclusive("infra: " + err.Error())
+				return
+			}
+			nconn := 2 + (shard+i)%3
+			var cns []*wire.Conn
+			for k := 0; k < nconn; k++ {
+				cn, err := e.dial()
+				if err != nil {
+					r.Inconclusive("infra: " + err.Error())
+					return
+				}
+				cn.Do("PING")
+				cns = append(cns, cn)
+			}
+			for db := 1; db <= 15; db++ {
+				dbs := strconv.Itoa(db)
+				start := make(chan struct{})
+				var wg sync.WaitGroup
+				t0 := make([]int64, nconn)
+				t1 := make([]int64, nconn)
+				okSel := make([]bool, nconn)
+				req := resp.Cmd("SELECT", dbs)
+				for k := range cns {
+					wg.Add(1)
+					go func(k int) {
+						defer wg.Done()
+						<-start
+						t0[k] = wire.Now()
+						cns[k].Send(req)
+						v, _, err := cns[k].ReadValue(5 * time.Second)
+						t1[k] = wire.Now()
+						okSel[k] = err == nil && v.Text() == "OK"
+					}(k)
+				}
+				close(start)
+				wg.Wait()
+				atomic.AddInt64(&firstUses, 1)
+				maxT0, minT1 := t0[0], t1[0]
+				for k := range cns {
+					if t0[k] > maxT0 {
+						maxT0 = t0[k]
+					}
+					if t1[k] < minT1 {
+						minT1 = t1[k]
+					}
+				}
+				if maxT0 < minT1 {
+					atomic.AddInt64(&overlapping, 1)
+				}
+				r.Eval(1)
+				rep := map[string]any{"database": db, "connections": nconn}
+				for k := range cns {
+					if !okSel[k] {
+						r.Report("first-use/select-refused", fmt.Sprintf("connection %d: SELECT %d was not answered with OK", k, db), rep)
+					}
+				}
+				// every connection writes a key of its own, then every connection reads all of them
+				for k, cn := range cns {
+					cn.Do("SET", fmt.Sprintf("k%d", k), fmt.Sprintf("v%d-%d", db, k))
+				}
+				late, _ := e.dial()
+				late.Do("SELECT", dbs)
+				split := false
+				for k, cn := range append(append([]*wire.Conn{}, cns...), late) {
+					for j := range cns {
+						v, _ := cn.Do("GET", fmt.Sprintf("k%d", j))
+						if v.Text() != fmt.Sprintf("v%d-%d", db, j) && !split {
+							split = true
+							r.Report("first-use/database-split-into-two-namespaces", fmt.Sprintf("%d connections selected the unused database %d at the same moment; afterwards connection %d (of %d, the last one connected later) reads k%d = %s although connection %d has set it in the same database", nconn, db, k, nconn+1, j, v, j), rep)
+						}
+					}
+					if v, _ := cn.Do("DBSIZE"); v.Int != int64(nconn) && !split {
+						split = true
+						r.Report("first-use/dbsize-disagrees", fmt.Sprintf("database %d after %d connections wrote one key each: connection %d sees DBSIZE %s", db, nconn, k, v), rep)
+					}
+				}
+				// FLUSHALL by the late connection must empty the database for every connection
+				late.Do("FLUSHALL")
+				for k, cn := range cns {
+					if v, _ := cn.Do("DBSIZE"); v.Int != 0 && !split {
+						split = true
+						r.Report("first-use/flushall-misses-a-connection", fmt.Sprintf("database %d: after FLUSHALL connection %d still sees DBSIZE %s", db, k, v), rep)
+					}
+				}
+				late.Close()
+			}
+			for _, cn := range cns {
+				cn.Close()
+			}
+			e.close()
+			r.Distinct(fmt.Sprintf("first-use/%d-connections", nconn))
+		}
+	})
+	r.Count("first_use_selects_released_together", firstUses)
+	r.Count("first_use_selects_overlapping_at_the_client", overlapping)
 }
